@@ -368,6 +368,8 @@ def _matches_overlap (a, b):
   for f in ("in_port", "dl_vlan", "dl_src", "dl_dst", "dl_type", "nw_proto",
             "tp_src", "tp_dst", "dl_vlan_pcp", "nw_tos"):
     x,y = getattr(a, f), getattr(b, f)
+    if f == "nw_tos" and x is not None and y is not None:
+      x,y = x & 0xfc, y & 0xfc # Only the DSCP bits are matched
     if x is not None and y is not None and x != y: return False
   for x,y in ((a.get_nw_src(), b.get_nw_src()),
               (a.get_nw_dst(), b.get_nw_dst())):
